@@ -1,6 +1,138 @@
-(* C18 - placeholder while the pipeline is brought up *)
-From IV Require Import Base.Word Model.PriorityQueue Model.JitterBuffer Check.C18Check.
+(* C18 - Jitter buffer emits pushed packets in sequence order, at most once.
+   Statements only; proofs are in Proofs/PriorityQueueProofs.v and
+   Proofs/JitterBufferProofs.v.
 
-Theorem C18_placeholder : cjb_run 1 [OPush 5 7; OPop] = [(RUnit, [1; 2]); (RPkt 0 5 7, [])].
+   Vocabulary.  [pq] is the pointer-level queue (heap of nodes addressed by
+   index, next/prev/val/priority, cached uint16 length), [Rep q l] says that the
+   nodes reachable from q.next are exactly the duplicate-free id list l, ending
+   in nil (acyclic), all allocated, and q.length = |l| mod 2^16.  [absl] reads
+   the list of (priority, val) off the heap.  [cjb_run min ops] is the run of the
+   jitter buffer over the pointer-level queue on history [ops] with
+   WithMinimumPacketCount(min); it stops at the first panic / non-terminating
+   walk.  [jb_spec_code] is the specification oracle of Check/C18Check.v (the
+   property text over an abstract multiset of buffered packet objects; 0 = the
+   history satisfies it); the same oracle is applied to the implementation's
+   outputs by the correspondence check. *)
+From IV Require Import Base.Word Model.PriorityQueue Model.JitterBuffer
+  Proofs.PriorityQueueProofs Proofs.JitterBufferProofs Check.C18Check.
+
+(* ---- priority queue: well-formedness is preserved and every operation refines
+        the abstract list operation; none can panic or diverge ---- *)
+Theorem C18_pq_wf_new : Rep pq_new [].
+Proof. exact Rep_new. Qed.
+Print Assumptions C18_pq_wf_new.
+
+(* Push: insert before the first element with priority >= the new one *)
+Theorem C18_pq_push_refines : forall q l v prio, Rep q l ->
+  exists q' l', pq_push q v prio = Ok q' /\ Rep q' l' /\
+    absl (qheap q') l' = aq_push (absl (qheap q) l) v prio /\
+    (forall i, In i l' -> In i l \/ i = length (qheap q)) /\
+    (forall i, In i l -> vl (qheap q') i = vl (qheap q) i) /\
+    vl (qheap q') (length (qheap q)) = v.
+Proof. exact pq_push_refines. Qed.
+Print Assumptions C18_pq_push_refines.
+
+(* Find: first element with that priority, queue untouched *)
+Theorem C18_pq_find_refines : forall q l sq, Rep q l ->
+  pq_find q sq = aq_find (absl (qheap q) l) sq.
+Proof. exact pq_find_refines. Qed.
+Print Assumptions C18_pq_find_refines.
+
+(* Pop: the first element *)
+Theorem C18_pq_pop_refines : forall q l, Rep q l ->
+  match aq_pop (absl (qheap q) l) with
+  | Ok (w, t) => exists q' l', pq_pop q = Ok (w, q') /\ Rep q' l' /\ absl (qheap q') l' = t /\
+                   incl l' l /\ (forall i, In i l' -> vl (qheap q') i = vl (qheap q) i)
+  | Err e => pq_pop q = Err e
+  | _ => False
+  end.
+Proof. exact pq_pop_refines. Qed.
+Print Assumptions C18_pq_pop_refines.
+
+(* PopAt / PopAtTimestamp: remove the first match; a miss is an error and
+   changes nothing (the queue value is not even rebuilt) *)
+Theorem C18_pq_popat_refines : forall q l k, Rep q l -> Vals q l ->
+  match aq_popat (absl (qheap q) l) k with
+  | Ok (w, t) => exists q' l', pq_popat q k = Ok (w, q') /\ Rep q' l' /\ absl (qheap q') l' = t /\
+                   incl l' l /\ (forall i, In i l' -> vl (qheap q') i = vl (qheap q) i)
+  | Err e => pq_popat q k = Err e
+  | _ => False
+  end.
+Proof. exact pq_popat_refines. Qed.
+Print Assumptions C18_pq_popat_refines.
+
+(* Clear: the empty queue *)
+Theorem C18_pq_clear_refines : forall q l, Rep q l -> exists q', pq_clear q = Ok q' /\ Rep q' [].
+Proof. exact pq_clear_refines. Qed.
+Print Assumptions C18_pq_clear_refines.
+
+(* pq_refines_list / pq_no_diverge over whole histories of direct queue calls
+   (any mix of Push with arbitrary priorities, Find, Pop, PopAt, PopAtTimestamp,
+   Clear, Length): the pointer-level run equals the ordered-list run, which by
+   construction contains no RPanic/RDiverge for non-nil packets *)
+Theorem C18_pq_refines_list : forall ops, pq_run pq_new 0 ops = aq_run [] 0 ops.
+Proof. exact pq_run_eq_aq_run. Qed.
+Print Assumptions C18_pq_refines_list.
+
+(* ---- jitter buffer ---- *)
+(* the buffer over the pointer-level queue and over the abstract list produce
+   the same results and events on every history, for every minimum count *)
+Theorem C18_pointer_run_is_list_run : forall min ops, cjb_run min ops = ajb_run min ops.
+Proof. exact cjb_run_eq_ajb_run. Qed.
+Print Assumptions C18_pointer_run_is_list_run.
+
+(* no operation of any history panics (nil dereference) or fails to terminate *)
+Theorem C18_no_panic_no_diverge : forall min ops,
+  Forall (fun re => fst re <> RPanic /\ fst re <> RDiverge) (cjb_run min ops).
+Proof. exact cjb_run_good. Qed.
+Print Assumptions C18_no_panic_no_diverge.
+
+(* MAIN: every history, for every uint16 minimum count, satisfies the
+   specification oracle: pops before playback starts are refused; once started a
+   pop at the head/sequence/timestamp succeeds iff a packet with that key is
+   buffered, returns an object that was pushed with that key, is still buffered,
+   was not returned before and was not buffered before a Clear; Pop() returns
+   the playout head, which starts at the first packet buffered and advances by
+   one (mod 2^16) per successful Pop/PopAtSequence; a failed pop changes nothing;
+   peeks/finds return only buffered objects; PlayoutHead() is that head. *)
+Theorem C18_model_meets_spec : forall min ops, 0 <= min < 65536 ->
+  jb_spec_code (min, ops, cjb_run min ops) = 0%nat.
+Proof. exact cjb_run_spec. Qed.
+Print Assumptions C18_model_meets_spec.
+
+(* what acceptance by the oracle means at a Pop(), in the property's words *)
+Theorem C18_oracle_pop_meaning : forall t r t', sp_step t OPop r = inl t' ->
+  match r with
+  | RPkt id sq ts =>
+      sstarted t = true /\ sq = shead t /\ In (mkPkt id sq ts) (sbuf t) /\
+      ~ In id (sret t) /\ ~ In id (sold t) /\
+      shead t' = add16 (shead t) 1 /\ In id (sret t') /\ ~ In id (map pid (sbuf t'))
+  | RErr e => t' = t /\ (sstarted t = false -> e = ErrPopWhileBuffering) /\
+              (sstarted t = true -> has_seq (sbuf t) (shead t) = false)
+  | _ => False
+  end.
+Proof. exact oracle_pop_sound. Qed.
+Print Assumptions C18_oracle_pop_meaning.
+
+(* non-vacuity: a wrap-around history whose three pops return 65535, 0, 1 *)
+Example C18_example_wrap :
+  map fst (cjb_run 3 [OPush 65535 10; OPush 1 30; OPush 0 20; OPop; OPop; OPop; OPop]) =
+  [RUnit; RUnit; RUnit; RPkt 0 65535 10; RPkt 2 0 20; RPkt 1 1 30; RErr ErrInvalidOperation].
 Proof. vm_compute. reflexivity. Qed.
-Print Assumptions C18_placeholder.
+Print Assumptions C18_example_wrap.
+
+(* ---- the code before the fix: commits (design-review findings F18, F19) ---- *)
+(* F18: with [priority < q.next.priority] a duplicate of the head is linked into
+   a two-node cycle, and Find for an absent number exhausts every fuel *)
+Theorem C18_unfixed_push_cycle_refuted :
+  nx (qheap q55) 0 = Some 1%nat /\ nx (qheap q55) 1 = Some 0%nat /\
+  forall fuel, find_walk fuel (qheap q55) (qnext q55) 7 = Diverge.
+Proof. split; [apply unfixed_push_cycle|split; [apply unfixed_push_cycle|exact unfixed_push_find_diverges]]. Qed.
+Print Assumptions C18_unfixed_push_cycle_refuted.
+
+(* F19: without [q.next = nil] Clear leaves the list reachable *)
+Theorem C18_unfixed_clear_refuted :
+  exists q1 q2, pq_push pq_new (Some (mkPkt 0 5 0)) 5 = Ok q1 /\ pq_clear_gen false q1 = Ok q2 /\
+                pq_find q2 5 = Ok (Some (mkPkt 0 5 0)).
+Proof. exact unfixed_clear_find. Qed.
+Print Assumptions C18_unfixed_clear_refuted.
